@@ -233,7 +233,7 @@ def contract_solver(P):
     return solver
 
 
-def functional_solver(P, contract=False):
+def functional_solver(P, contract=False, normalise=False):
     """spsolve as an uninterpreted but deterministic function: identical argument terms give the identical result
     vector, anything else a fresh vector (so a system assembled at a stale state yields a different update); with ``contract`` the
     vector additionally satisfies A dx = rhs whenever A has no all-zero row"""
@@ -242,6 +242,12 @@ def functional_solver(P, contract=False):
     memo = {}
 
     def keyof(A, rhs):
+        if normalise:
+            # equality of the linear systems up to polynomial normal form (z3's sum-of-monomials simplifier): used where the
+            # two systems are built from different but algebraically equal terms (a graph and its translate)
+            import z3
+
+            return tuple(z3.simplify(Sym.lift(x).z(), som=True, sort_sums=True).hash() for x in list(A.flat) + list(rhs.flat))
         return tuple(Sym.lift(x).z().hash() for x in list(A.flat) + list(rhs.flat))
 
     def solver(A, rhs, k):
